@@ -1,8 +1,8 @@
 (* C11Corr.v — correspondence of LongdayModel with hermes.LangTagConverter: the harness
    evaluates hermes.CalculateDayLenght for TAG = 1..367 at a latitude (the oracle values),
    calls the real LangTag and prints (TAG, P1, P2); the model is run on the same oracle. *)
-From Coq Require Import ZArith Bool List.
-From Hermes Require Import LongdayModel.
+From Coq Require Import ZArith Bool List String.
+From Hermes Require Import LongdayModel TextureModel.
 Import ListNotations.
 Local Open Scope Z_scope.
 
@@ -27,4 +27,22 @@ Fixpoint lmismatches (i : Z) (l : list lcase) : list Z :=
   match l with
   | [] => []
   | c :: r => if lcase_ok c then lmismatches (i + 1) r else i :: lmismatches (i + 1) r
+  end.
+
+(* ---- texture path: one case = one soil profile (raw codes as written in the soil file, top
+   to bottom) run through the real Input/Hydro (session.Run in-process, panics recovered);
+   observed: 0 = run completed, 1 = run error about the texture, 2 = the process/goroutine died *)
+Record tcase := TCase { tc_raws : list string; tc_obs : Z }.
+
+Definition outcome_code (o : outcome) : Z :=
+  match o with Accepted => 0 | RunError => 1 | ProcessDies => 2 end.
+
+Definition tcase_ok (parcap hypar : list string) (c : tcase) : bool :=
+  outcome_code (profile_outcome parcap hypar (tc_raws c)) =? tc_obs c.
+
+Fixpoint tmismatches (parcap hypar : list string) (i : Z) (l : list tcase) : list Z :=
+  match l with
+  | [] => []
+  | c :: r => if tcase_ok parcap hypar c then tmismatches parcap hypar (i + 1) r
+              else i :: tmismatches parcap hypar (i + 1) r
   end.
